@@ -77,9 +77,9 @@ def zero_count_bitmap(dec):
     return False
 
 
-def dec_impl(b, **kw):
+def dec_impl(b, limit=60, **kw):
     try:
-        with lib.time_limit(60):
+        with lib.time_limit(limit):
             _, vals, labels, links = B.decode_impl(b, **kw)
         return ('ok', vals, labels, links)
     except lib.CaseTimeout:
@@ -170,7 +170,18 @@ def check_case(ctx, c, k_cache):
         return
     # --- decode
     di = c.get('impl_dec') or dec_impl(e[3])
-    dc = dec_impl(e[3], compiled_template_cache_max=k_cache)
+    try:
+        dc = dec_impl(e[3], limit=60 if fl['scoped'] else 10, compiled_template_cache_max=k_cache)
+    except lib.CaseTimeout:
+        if fl['scoped']:
+            raise
+        # outside the property's premise (an operator construct crossing a replication boundary, e.g. a 221YYY span that
+        # swallows a delayed replication and its factor) the compiled program reads its replication factors out of step:
+        # nested loops over factors that are really data values do not finish in any reasonable time, in the
+        # implementation and in the model alike; nothing can be compared
+        ctx.dist['unscoped: compiled decoding does not finish within the limit (factors read out of step)'] += 1
+        c['compiled_does_not_finish'] = True          # kept out of the save/load and cache-history pools
+        return di
     if fl['ok_c08'] and not same_dec(di, dc):
         ctx.violation(dict(kind='C08-theorem-hypotheses-hold-but-decode-differs', case=case, interpreted=repr(di)[:300],
                            compiled=repr(dc)[:300], **fl),
@@ -205,6 +216,7 @@ def save_load_case(ctx, c, di):
 
 
 def run(ctx):
+    lib.SHARD_MIN_LINES = 100        # few lines, each a whole template walk: spread them over the cores
     ctx.rule = ('programs: generated templates with every operator (constructs opened and closed within one replication scope), '
                 'every sequence of the bundled Table D (quick: a sample of version 33; thorough: all of versions >= 19), '
                 'sample-file templates; data: values from the model-side generator with delayed factors 0..3 and bitmaps, '
@@ -361,7 +373,7 @@ def run(ctx):
         del slow[5:]
         ctx.extra['slowest_cases_s_ids_seed_nsub_compressed_cache'] = slow
         fl = flags_of(c['ids'], c.get('version', 33))
-        if di is not None and di[0] == 'ok' and not c.get('witness') and not (fl['marker_under_204'] or fl['marker_after_203000']
+        if di is not None and di[0] == 'ok' and not c.get('witness') and not c.get('compiled_does_not_finish') and not (fl['marker_under_204'] or fl['marker_after_203000']
                                                                               or zero_count_bitmap(di)):
             good.append((c, di))
         ctx.sample({'ids': c['ids'], 'cache_max': k_cache}, limit=3)
